@@ -67,7 +67,6 @@ META = {
         'the argument of RANDOMIZE / RND(-x) is identified by its type and bytes (or source text)',
     ],
     'exhaustive': {
-        'quick': None,
         'thorough': ('all 2^24 generator states: each is visited exactly once by walking the real step function (16 chained '
                      'segments), returning to the start after exactly 2^24 steps; value and successor checked at each; '
                      'RANDOMIZE over all 65536 integer arguments'),
